@@ -223,7 +223,7 @@ func runConc(c Case) concOut {
 			ks = append(ks, k)
 		}
 		sort.Strings(ks)
-		out.key = "C13/memory-concurrent/non-linearizable/" + strings.Join(ks, "+")
+		out.key = "C13/memory-concurrent/" + c.Family + "/non-linearizable/" + strings.Join(ks, "+")
 		out.detail = "no sequential order of these calls on one key explains the answers (call/return in ns): " + strings.Join(lines, " | ")
 		return out
 	}
@@ -322,7 +322,7 @@ func TestConcurrentLinearizable(t *testing.T) {
 		if rapid.IntRange(0, 2).Draw(t, "twoKeys") == 0 {
 			keys = []string{"x", "y"}
 		}
-		c := Case{Part: "conc"}
+		c := Case{Part: "conc", Family: fam}
 		// set-up: optionally a live value or an expired, unswept item per key
 		short := false
 		for _, k := range keys {
